@@ -80,6 +80,10 @@ ssize_t __wrap_getrandom(void *buf, size_t len, unsigned flags) {
         if ((ok == 2 || ok == 3) && !g_eintr_pending) { g_eintr_pending = true; errno = ok == 2 ? EINTR : EAGAIN; return -1; }      // interrupted / not ready once, then served
         g_eintr_pending = false; ++g_src_pos; if (ok == 2 || ok == 3) ok = 1;
     }
+    if (ok == 4) {      // a short count: only the scripted bytes (at least one, fewer than asked) are delivered; the next entry follows
+        size_t n = b.size() < 1 ? 1 : b.size(); if (n >= len) n = len > 1 ? len - 1 : len;
+        b.resize(n, 0); memcpy(buf, &b[0], n); g_sys_ok = 4; g_sys_bytes = b; return (ssize_t)n;
+    }
     g_sys_ok = ok; g_sys_bytes = b; g_sys_bytes.resize(len, 0);
     if (!ok) { errno = ENOSYS; return -1; }
     memcpy(buf, &g_sys_bytes[0], len);
